@@ -7,6 +7,7 @@ package telnet
 import (
 	"bufio"
 	"fmt"
+	"io"
 	"net"
 	"strings"
 )
@@ -14,9 +15,21 @@ import (
 type Conn struct {
 	net.Conn
 	remoteCall string
+
+	// The buffered reader used during login. It may hold data that was received
+	// together with the last line of the login sequence.
+	r io.Reader
 }
 
 func (conn Conn) RemoteCall() string { return conn.remoteCall }
+
+// Read reads data from the connection, starting with what was buffered during login.
+func (conn Conn) Read(p []byte) (int, error) {
+	if conn.r != nil {
+		return conn.r.Read(p)
+	}
+	return conn.Conn.Read(p)
+}
 
 type listener struct{ net.Listener }
 
@@ -54,5 +67,5 @@ func (ln listener) Accept() (net.Conn, error) {
 	fmt.Fprintf(conn, "Password :\r")
 	_, err = reader.ReadString('\r') //TODO
 
-	return &Conn{conn, remoteCall}, err
+	return &Conn{conn, remoteCall, reader}, err
 }
